@@ -3,6 +3,7 @@ JSON codec of the line protocol (DESIGN.md appendix B).
 -/
 import Lean.Data.Json
 import DimModel.Lib.GetSet
+import DimModel.Lib.Align
 import DimModel.Driver.Cell
 open Lean
 namespace DimModel.Codec
@@ -110,6 +111,12 @@ def mode (j : Json) : P Mode := do
   | "label" => pure .label
   | "position" => pure .position
   | m => throw s!"bad mode {m}"
+
+def side (j : Json) : P Side := do
+  match (← str j) with
+  | "left" => pure .left
+  | "right" => pure .right
+  | s => throw s!"bad side {s}"
 
 def tol (j : Json) : P Tol := do
   let a ← arr j
